@@ -315,3 +315,140 @@ Proof.
   split; [eexists; vm_compute; reflexivity|]. vm_compute. repeat split.
 Qed.
 (* ---- end audit follow-up ---- *)
+
+(* ---- audit follow-up (round 2) ---- *)
+(* ======================================================================== *)
+(* The public slice constructors not listed in C02_single_layer_ctor_total return Ok or Err
+   (ErrLen in the vocabulary of CtlMsg) for EVERY slice / byte string: Ethernet2HeaderSlice,
+   SingleVlanHeaderSlice, Ipv4ExtensionsSlice (every start number), the 11 typed ICMPv6
+   payload slices (`payload_ctor k`) and the enum constructors Icmpv6PayloadSlice::from_slice
+   / from_type_u8; and every accessor of an accepted payload slice returns (the unwraps of
+   first_chunk and the checked `[FIXED_PART_LEN..]` cannot panic): it is the view of
+   CtlMsg/Spec.v.  Same list as C01_remaining_ctors_no_oob.  Proofs: Parse/CtorsTotal2.v. *)
+From EP Require Import Parse.CtorsTotal2.
+
+Theorem C02_remaining_ctors_total :
+  (forall s, returns (Ethernet2HeaderSliceM.from_slice s)) /\
+  (forall s, returns (SingleVlanHeaderSliceM.from_slice s)) /\
+  (forall nh s, returns (Ipv4Exts.from_slice nh s)) /\
+  (forall k s, returns6 (payload_ctor k s)) /\
+  (forall ty s, returns6 (P6.from_slice ty s)) /\
+  (forall t c s, returns6 (P6.from_type_u8 t c s)) /\
+  (forall k s p, payload_ctor k s = CtlMsg.Spec.Ok p ->
+     P6.accessors p = CtlMsg.Spec.Ok (CtlMsg.Spec.ndp_payload_view k s)).
+Proof. exact remaining_ctors_return. Qed.
+Print Assumptions C02_remaining_ctors_total.
+
+(* ---- fixed-width overflow in the OFFSET bookkeeping (Parse/OffsetBounds.v) -------------
+   The whole strict path written once more -- Ipv4Slice / Ipv6ExtensionsSlice / Ipv6Slice /
+   IpSlice ::from_slice and every slicer of SlicedPacketCursor, calling the checked
+   constructors of UsizeBounds.v -- with EVERY usize `+` on a position checked against a
+   usize of M values (addC: Bug SITE_OVERFLOW when the exact sum is >= M):
+     LenError::add_offset / `layer_start_offset += ..` (+ header.slice().len() in the IPv4
+     constructors, + start_slice.len() - rest.len() in the extension walk, + Ipv6Header::LEN
+     in the IPv6 constructors, + self.offset in every cursor slicer),
+     `self.offset += header_len() | pointer difference | result.slice().len()` (the last one,
+     in the four transport slicers, is a dead store Parse/Cursor.v does not carry; the checked
+     copy has it), MacsecHeaderSlice::header_len().
+   For every M >= 2^17 and every byte string with len bs < M (a real slice: len <= isize::MAX
+   < M/2), the four checked entry points ARE the models of Parse/Cursor.v: no addition
+   overflows.  Invariant of the proof: c_offset c + s_len s <= len bs for the slice s the
+   cursor is about to parse, and X.from_slice s = Err (ELen e) -> le_off e <= s_len s. *)
+From EP Require Import Parse.OffsetBounds.
+
+Theorem C02_no_offset_overflow : forall M bs et, 2 ^ 17 <= M -> bytes_ok bs -> len bs < M ->
+  from_ethernetC M bs = SlicedPacket.from_ethernet bs /\
+  from_linux_sllC M bs = SlicedPacket.from_linux_sll bs /\
+  from_ether_typeC M et bs = SlicedPacket.from_ether_type et bs /\
+  from_ipC M bs = SlicedPacket.from_ip bs.
+Proof. exact no_offset_overflow. Qed.
+Print Assumptions C02_no_offset_overflow.
+
+Theorem C02_no_offset_overflow_32 : forall bs et, bytes_ok bs -> len bs < 2 ^ 32 ->
+  from_ethernetC (2 ^ 32) bs = SlicedPacket.from_ethernet bs /\
+  from_linux_sllC (2 ^ 32) bs = SlicedPacket.from_linux_sll bs /\
+  from_ether_typeC (2 ^ 32) et bs = SlicedPacket.from_ether_type et bs /\
+  from_ipC (2 ^ 32) bs = SlicedPacket.from_ip bs.
+Proof. exact no_offset_overflow_32. Qed.
+Print Assumptions C02_no_offset_overflow_32.
+
+Theorem C02_no_offset_overflow_64 : forall bs et, bytes_ok bs -> len bs < 2 ^ 64 ->
+  from_ethernetC (2 ^ 64) bs = SlicedPacket.from_ethernet bs /\
+  from_linux_sllC (2 ^ 64) bs = SlicedPacket.from_linux_sll bs /\
+  from_ether_typeC (2 ^ 64) et bs = SlicedPacket.from_ether_type et bs /\
+  from_ipC (2 ^ 64) bs = SlicedPacket.from_ip bs.
+Proof. exact no_offset_overflow_64. Qed.
+Print Assumptions C02_no_offset_overflow_64.
+
+(* hence the checked entry points never report an overflow (nor any other Bug) *)
+Theorem C02_no_offset_overflow_nobug : forall M bs et, 2 ^ 17 <= M -> bytes_ok bs -> len bs < M ->
+  nobug (from_ethernetC M bs) /\ nobug (from_linux_sllC M bs) /\
+  nobug (from_ether_typeC M et bs) /\ nobug (from_ipC M bs).
+Proof. exact no_offset_overflow_nobug. Qed.
+Print Assumptions C02_no_offset_overflow_nobug.
+
+(* the constructors on their own, for any slice: the checked Ipv4Slice needs no length bound
+   (its only offset is the IPv4 header length <= 60); the others need s_len s < M *)
+Theorem C02_no_offset_overflow_ctors : forall M s, 2 ^ 17 <= M -> bytes_ok (snd s) ->
+  ipv4_from_sliceC M s = Ipv4Slice.from_slice s /\
+  (s_len s < M ->
+   (forall nh, exts_from_sliceC M nh s = Ipv6ExtensionsSlice.from_slice nh s) /\
+   ipv6_from_sliceC M s = Ipv6Slice.from_slice s /\
+   ip_from_sliceC M s = IpSlice.from_slice s).
+Proof. exact no_offset_overflow_ctors. Qed.
+Print Assumptions C02_no_offset_overflow_ctors.
+
+(* where the layer_start_offset of a constructor's LenError lies: inside the slice *)
+Theorem C02_len_error_offset_inside : forall s e,
+  (Ipv4Slice.from_slice s = Err (ELen e) \/ Ipv6Slice.from_slice s = Err (ELen e) \/
+   IpSlice.from_slice s = Err (ELen e) \/
+   (exists nh, Ipv6ExtensionsSlice.from_slice nh s = Err (ELen e))) -> le_off e <= s_len s.
+Proof. exact len_error_offset_inside. Qed.
+Print Assumptions C02_len_error_offset_inside.
+
+(* ---- fixed-width overflow in the accessors that add or multiply (Parse/AccessorArith.v):
+   LinuxSllHeaderSlice::sender_address (6 + length), MacsecHeaderSlice::header_len,
+   ArpPacketSlice::{sender_protocol_addr, target_hw_addr, target_protocol_addr}
+   (8 + hw, 8 + hw + pr, 8 + hw*2 + pr), Ipv6RawExtHeaderSlice / IpAuthHeaderSlice
+   ::from_slice_unchecked ((b+1)*8, (b+2)*4: run by the extension iterator on every header),
+   TcpHeaderSlice::options (data_offset()*4): the checked copies are the accessors of
+   Parse/Access.v for every M >= 2^17 and every slice of bytes. *)
+From EP Require Import Parse.AccessorArith.
+
+Theorem C02_accessor_arith_bounds : forall M s, 2 ^ 17 <= M -> bytes_ok (snd s) ->
+  sll_sender_addressC M s = LinuxSllHeaderA.sender_address s /\
+  AccessorArith.macsec_header_lenC M s = MacsecHeaderA.header_len s /\
+  arp_sender_protocol_addrC M s = ArpPacketA.sender_protocol_addr s /\
+  arp_target_hw_addrC M s = ArpPacketA.target_hw_addr s /\
+  arp_target_protocol_addrC M s = ArpPacketA.target_protocol_addr s /\
+  raw_from_slice_uncheckedC M s = Ipv6RawExtHeaderA.from_slice_unchecked s /\
+  auth_from_slice_uncheckedC M s = Ipv6ExtIterA.auth_from_slice_unchecked s /\
+  tcp_optionsC M s = TcpHeaderSliceA.options s.
+Proof. exact accessor_arith_bounds. Qed.
+Print Assumptions C02_accessor_arith_bounds.
+
+(* ---- non-vacuity ---------------------------------------------------------- *)
+(* the checked copies are not the models by construction: with a usize too small for the
+   input they report the overflow -- (a) Ethernet II + VLAN with 16 usize values:
+   `self.offset += vlan.header_len()` = 14 + 4; (b) Ethernet II + IPv6 (next header 60) + one
+   byte with 50 usize values: the LenError of the cut destination options header is moved by
+   0 (walk), 40 (Ipv6Slice), then `add_offset(self.offset)` = 40 + 14 overflows; with a 32-bit
+   usize both equal the model (the error carries offset 54).  Accessors: the largest
+   windows are reached (ARP 8+255*2+255 = 773, raw ext 2048, TCP options up to 60) and an
+   8-bit usize overflows.  Payload slices: a Redirect payload of 31 bytes is rejected. *)
+Example C02_offset_overflow_ex :
+  from_ethernetC 16 ex_vlan_pkt = Bug SITE_OVERFLOW /\
+  (exists p, from_ethernetC (2 ^ 32) ex_vlan_pkt = Ok p /\ SlicedPacket.from_ethernet ex_vlan_pkt = Ok p) /\
+  from_ethernetC 50 ex_v6_cut_pkt = Bug SITE_OVERFLOW /\
+  from_ethernetC (2 ^ 32) ex_v6_cut_pkt = Err (ELen (mkLenError 8 1 LsSlice LyIpv6ExtHeader 54)) /\
+  SlicedPacket.from_ethernet ex_v6_cut_pkt = Err (ELen (mkLenError 8 1 LsSlice LyIpv6ExtHeader 54)) /\
+  arp_target_protocol_addrC (2 ^ 8) (mk_slice ([0;1;8;0;255;255;0;1] ++ repeat 0 1020%nat)) = Bug SITE_OVERFLOW /\
+  (exists e, payload_ctor CtlMsg.Spec.PkRedirect (repeat 0 31%nat) = CtlMsg.Spec.ErrLen e) /\
+  (exists e, Ethernet2HeaderSliceM.from_slice (mk_slice (repeat 0 13%nat)) = Err e).
+Proof.
+  split; [vm_compute; reflexivity|]. split; [eexists; split; vm_compute; reflexivity|].
+  split; [vm_compute; reflexivity|]. split; [vm_compute; reflexivity|].
+  split; [vm_compute; reflexivity|]. split; [vm_compute; reflexivity|].
+  split; eexists; vm_compute; reflexivity.
+Qed.
+(* ---- end audit follow-up (round 2) ---- *)
